@@ -202,8 +202,15 @@ class ConvexPolygon(Polygon):
         angles = np.mod(angles, 2 * np.pi)
         num_verts = len(self.vertices)
 
-        # Rearrange the verts so that we start with the lowest angle
-        verts, _ = _align_points_by_normal(self.normal, self.vertices - self.center)
+        # Rearrange the verts so that we start with the lowest angle. The angles are
+        # measured counterclockwise as seen from +z, so a polygon whose normal points
+        # towards -z is traversed in the opposite direction instead of being mirrored.
+        normal = self.normal
+        centered_verts = self.vertices - self.center
+        if normal[2] < 0:
+            normal = -normal
+            centered_verts = centered_verts[::-1]
+        verts, _ = _align_points_by_normal(normal, centered_verts)
         angles_to_vertices = np.arctan2(verts[:, 1], verts[:, 0])
         np.mod(angles_to_vertices, 2 * np.pi, out=angles_to_vertices)
 
